@@ -583,7 +583,7 @@ impl Prop for C16 {
         if stage == 0 {
             let n = n_ops();
             for i in a..b {
-            out.idx = Some(i);
+            out.at(i);
                 let ops = if i < n { vec![i] } else { vec![(i - n) / n, (i - n) % n] };
                 run_history(&ops, &world, &model_asts, "fresh", out);
                 out.count("states", 1);
@@ -594,14 +594,14 @@ impl Prop for C16 {
         if stage == 4 {
             let cases = depth_cases(tier);
             for i in a..b {
-                out.idx = Some(i);
+                out.at(i);
                 run_depth_case(cases[i as usize], out);
             }
             return;
         }
         if stage == 2 {
             for i in a..b {
-                out.idx = Some(i);
+                out.at(i);
                 let (p, q) = ((i as usize) / PROGRAMS.len(), (i as usize) % PROGRAMS.len());
                 let mut ops = Vec::new();
                 for r in 0..long_reps(tier) {
@@ -618,7 +618,7 @@ impl Prop for C16 {
         if stage == 1 {
             let hs = reg_histories();
             for i in a..b {
-            out.idx = Some(i);
+            out.at(i);
                 run_history(&hs[i as usize], &world, &model_asts, "registration", out);
                 out.count("states", 1);
                 out.sample(hs[i as usize].iter().map(|o| op_text(*o)).collect::<Vec<_>>().join(" ; "));
@@ -626,7 +626,7 @@ impl Prop for C16 {
             return;
         }
         for i in a..b {
-            out.idx = Some(i);
+            out.at(i);
             let ops = history_of(i, tier);
             run_history(&ops, &world, &model_asts, "histories", out);
             if i % 40009 == 7 {
